@@ -454,6 +454,37 @@ class Body:
                 i = k + 1
         return res
 
+    def stmts(self):
+        """Top-level statements of the outer block: list of (start, end) offsets (end exclusive, after `;` or closing `}`)."""
+        m = self.mask
+        i = 1
+        end = len(m) - 1
+        res = []
+        start = None
+        while i < end:
+            ch = m[i]
+            if start is None:
+                if ch.isspace():
+                    i += 1
+                    continue
+                start = i
+            if ch in '([':
+                i = match_close(m, i)
+            elif ch == '{':
+                i = match_close(m, i)
+                k = skip_ws(m, i + 1)
+                # a block-like statement ends at its closing brace unless an operator / else / method call continues it
+                first = m[start:start + 8]
+                blocklike = re.match(r"(if|for|while|loop|match|unsafe|\{|'[A-Za-z_]\w*\s*:)", m[start:start + 40])
+                if blocklike and not (m.startswith('else', k) or (k < end and m[k] in '.?;')):
+                    res.append((start, i + 1))
+                    start = None
+            elif ch == ';':
+                res.append((start, i + 1))
+                start = None
+            i += 1
+        return res
+
     def tail_start(self):
         """Offset where the tail expression of the outer block starts (or None if no tail)."""
         m = self.mask
